@@ -8,7 +8,7 @@
 #
 import re
 
-from ural.patterns import QUERY_VALUE_IN_URL_TEMPLATE, CONTROL_CHARS_RE
+from ural.patterns import QUERY_VALUE_IN_URL_TEMPLATE, CONTROL_CHARS_RE, PROTOCOL_RE
 from ural.utils import unquote, urljoin
 
 OBVIOUS_REDIRECTS_RE = re.compile(
@@ -74,7 +74,14 @@ def infer_redirection(url, recursive=True):
             elif potential_target.startswith("/"):
                 # NOTE: the url itself may not be parseable
                 try:
-                    target = urljoin(url, potential_target)
+                    if PROTOCOL_RE.match(url) or url.startswith("/"):
+                        target = urljoin(url, potential_target)
+                    else:
+                        # NOTE: without protocol, the host would be taken for a path
+                        target = urljoin("//" + url, potential_target)
+
+                        if target.startswith("//"):
+                            target = target[2:]
                 except ValueError:
                     target = None
 
